@@ -3,11 +3,12 @@
 LogQLSem.tla (EvalMetric) defines the answer of a metric query: matching entries of the window widened to whole range
 buckets, Bucket(t) = intDiv(t, range) * range, range function (rate, count_over_time, bytes_rate, bytes_over_time,
 sum|avg|min|max|first|last_over_time and rate over unwrap), vector aggregation sum|min|max|avg|count by/without,
-comparison, topk/bottomk, points at start + i*step.  LogQLPlan.tla (PlanMetric) transcribes the SQL planners in the
+comparison, topk/bottomk and the comparison written after it (applied to the OUTPUT of the k-selection), points at
+start + i*step.  LogQLPlan.tla (PlanMetric) transcribes the SQL planners in the
 order of getFunctionOrder, the metrics_15s shortcut, StepFixPlanner and the Go post-processors ZeroEater and
 FixPeriodPlanner as functions on rows.  TLC enumerates the fragments of MC_LogQLMetric.tla (R range x step x alignment x
-unit, U unwrap, A vector aggregations / comparisons / topk, H the 15 s shortcut at second resolution) plus a seeded sample
-of the product (S), reports every case where mechanism and definition differ and exports cases; cmd/c07 runs them
+unit, U unwrap, A vector aggregations / comparisons / topk, H the 15 s shortcut at second resolution, T comparisons after
+topk / bottomk in both directions on every planning path) plus a seeded sample of the product (S), reports every case where mechanism and definition differ and exports cases; cmd/c07 runs them
 through the REAL /loki/api/v1/query_range with `step` and compares series label sets and (timestamp, value) pairs."""
 import os
 import shutil
@@ -26,13 +27,13 @@ CONSTANTS
   MaxEntries = %(maxentries)d
   ExportSeed = %(seed)d
   SCases <- DataSCases
-INVARIANTS DefinitionWellFormed MechanismWellFormed OnlyWidenedWindowContributes Export
+INVARIANTS DefinitionWellFormed MechanismWellFormed OnlyWidenedWindowContributes ComparisonAfterSelection Export
 CHECK_DEADLOCK FALSE
 '''
 
 TIERS = {
-    'quick': {'R': (8, 8, 3), 'U': (8, 8, 3), 'A': (5, 5, 3), 'H': (4, 4), 'S': (1, 1), 'maxentries': 2, 'nS': 400},
-    'thorough': {'R': (10, 10, 2), 'U': (12, 12, 3), 'A': (1, 1), 'H': (1, 1), 'S': (1, 1), 'maxentries': 3, 'nS': 5000},
+    'quick': {'R': (8, 8, 3), 'U': (8, 8, 3), 'A': (5, 5, 3), 'H': (4, 4), 'T': (3, 3, 2), 'S': (1, 1), 'maxentries': 2, 'nS': 400},
+    'thorough': {'R': (10, 10, 2), 'U': (12, 12, 3), 'A': (1, 1), 'H': (1, 1), 'T': (1, 1), 'S': (1, 1), 'maxentries': 3, 'nS': 5000},
 }
 
 UNWRAP_FNS = ['sum_over_time', 'avg_over_time', 'min_over_time', 'max_over_time', 'first_over_time', 'last_over_time', 'rate_unwrap']
@@ -73,7 +74,7 @@ def rand_metric_case(r):
     step = r.choice([1, 2, 4])
     unit = r.choice([1, 1, 15])
     mq = {'fn': fn, 'range': rng, 'step': step, 'unit': unit, 'ugrp': '', 'uglbls': set(), 'agg': '', 'grp': '', 'gpos': 'prefix',
-          'glbls': set(), 'cmpl': {'op': '', 'k4': 0}, 'cmpa': {'op': '', 'k4': 0}, 'topfn': '', 'topk': 0}
+          'glbls': set(), 'cmpl': {'op': '', 'k4': 0}, 'cmpa': {'op': '', 'k4': 0}, 'topfn': '', 'topk': 0, 'cmpt': {'op': '', 'k4': 0}}
     if unwrap:
         if r.random() < 0.7:
             mq['ugrp'], mq['uglbls'] = 'by', set(r.sample(['a', 'b', 'x'], r.randint(1, 2)))
@@ -97,6 +98,9 @@ def rand_metric_case(r):
             mq['cmpl'] = c
     if r.random() < 0.2:
         mq['topfn'], mq['topk'] = r.choice(['topk', 'bottomk']), r.choice([1, 2])
+        if fn in ('rate', 'count_over_time') and r.random() < 0.5:
+            # a comparison written after topk / bottomk (thresholds between the values counts can take)
+            mq['cmpt'] = {'op': r.choice(['>', '>=', '<', '<=']), 'k4': r.choice([1, 5, 9])}
     q = {'m': ms, 'p': stages, 'from': r.randint(2, 4), 'to': r.randint(5, 8), 'lim': 0, 'fwd': False, 'mq': mq}
     return {'q': q, 'db': db}
 
@@ -105,7 +109,7 @@ def run(tier):
     binp = vlib.go_build('cmd/c07', 'c07')
     sd = vlib.scratch('c08')
     try:
-        frs, tl = base.tlc_run(tier, sd, vlib.seed(), frags=['R', 'U', 'A', 'H', 'S'], mc_module='MC_LogQLMetric',
+        frs, tl = base.tlc_run(tier, sd, vlib.seed(), frags=['R', 'U', 'A', 'H', 'T', 'S'], mc_module='MC_LogQLMetric',
                                gen=rand_metric_case, cfg_tpl=CFG, tiers=TIERS)
         cases = []
         for fr in frs:
@@ -117,7 +121,12 @@ def run(tier):
         pu = result.get('pool_use') or {}
         need = (['fn:' + f for f in UNWRAP_FNS + LRA_FNS] + ['unit:1', 'unit:15', 'step<range', 'step=range', 'step>range', 'topk', 'bottomk',
                 'grouping:by:prefix', 'grouping:by:suffix', 'grouping:without:prefix', 'grouping:without:suffix',
-                'range-grouping:by', 'range-grouping:without'] + ['agg:' + a for a in ('sum', 'min', 'max', 'avg', 'count')])
+                'range-grouping:by', 'range-grouping:without'] + ['agg:' + a for a in ('sum', 'min', 'max', 'avg', 'count')]
+                # a comparison after topk / bottomk: every operator under both selections, and on every planning path cases on
+                # which the order of selection and threshold is observable
+                + ['topcmp:%s:%s' % (tf, o) for tf in ('topk', 'bottomk') for o in ('>', '>=', '<', '<=', '==', '!=')]
+                + ['topcmp-order-observable:%s:%s' % (tf, pth) for tf in ('topk', 'bottomk')
+                   for pth in ('short-range', 'shortcut15s', 'long-range-sql')])
         missing = [n for n in need if not pu.get(n)]
         if not any(k.startswith('comparison:') for k in pu):
             missing.append('comparison')
@@ -139,7 +148,7 @@ def run(tier):
             'candidates_confirmed_against_real_code': result['dev_cases_matching_mechanism_model'],
             'driver': {k: result[k] for k in ('cases_run', 'agree', 'by_frag', 'wall_s', 'writer_pushes', 'stage_use', 'pool_use')},
             'mismatch_signatures': sorted(set(m['signature'] for m in result.get('mismatches') or [])),
-            'checker_cmd': 'tlc MC_LogQLMetric (Frag=R,U,A,H,S) -> cases -> c07 run (real /loki/api/v1/query_range with step over chsql)',
+            'checker_cmd': 'tlc MC_LogQLMetric (Frag=R,U,A,H,T,S) -> cases -> c07 run (real /loki/api/v1/query_range with step over chsql)',
         }
         return {'level': 'model_checking', 'coverage': cov, 'violations': viols, 'assumptions': ASSUMPTIONS}
     finally:
